@@ -45,9 +45,28 @@ fn main() {
                 "c16m" => vh::c16::child_m(idx),
                 "c15" => vh::c15::child(idx),
                 "hashdigest" | "iddigest" => vh::c12::child(args[2].as_str()),
+                // machinery self-test: a child that blocks for good / that is slow but busy
+                "hang" => std::thread::sleep(std::time::Duration::from_secs(100_000)),
+                "busy" => {
+                    let t = std::time::Instant::now();
+                    let mut x = 0u64;
+                    while t.elapsed() < std::time::Duration::from_secs(15) {
+                        x = x.wrapping_mul(6364136223846793005).wrapping_add(1);
+                    }
+                    vh::report::emit_child_result(&serde_json::json!({"x": x}));
+                }
                 _ => usage(),
             }
             0
+        }
+        "selftest" => {
+            // the hang detector: a blocked child is given up, a busy one that
+            // overruns the wall-clock limit is not
+            let t = std::time::Duration::from_secs(3);
+            let hung = matches!(vh::report::run_child(&["hang".into(), "0".into()], t), vh::report::Child::TimedOut);
+            let busy = matches!(vh::report::run_child(&["busy".into(), "0".into()], t), vh::report::Child::Done(_));
+            println!("blocked child given up: {hung}; busy child past the limit waited for: {busy}");
+            i32::from(!(hung && busy)) * 2
         }
         "replay" => {
             let s = std::fs::read_to_string(&args[2]).expect("read replay file");
